@@ -17,7 +17,7 @@ NAME = "A"
 PROPERTY = "C07"
 RUNS = {"quick": 700, "thorough": 30000}
 RUN_WALL_CAP = 30.0
-REQUIRED_PROBES = {"quick": ["pool_branch_entered", "two_chunks_two_workers", "transposed_branch", "untransposed_branch", "unequal_alphabets", "out_of_order_completion", "single_worker_pool", "second_pool_config_compared"], "thorough": ["pool_branch_entered", "two_chunks_two_workers", "transposed_branch", "untransposed_branch", "unequal_alphabets", "out_of_order_completion", "single_worker_pool", "sixtyone_worker_pool", "second_pool_config_compared"]}
+REQUIRED_PROBES = {"quick": ["pool_branch_entered", "two_chunks_two_workers", "transposed_branch", "untransposed_branch", "unequal_alphabets", "out_of_order_completion", "single_worker_pool", "second_pool_config_compared"], "thorough": ["pool_branch_entered", "two_chunks_two_workers", "transposed_branch", "untransposed_branch", "unequal_alphabets", "out_of_order_completion", "single_worker_pool", "sixtyone_worker_pool", "second_pool_config_compared", "real_pool_crosscheck"]}
 COMPONENTS = {"real": ["toqito.nonlocal_games.NonlocalGame.classical_value / process_iteration", "pickle round trip of every chunk", "numpy"], "stub": ["multiprocessing.Pool -> SimPool (discrete-event, in-process, CPython 3.12 chunking and fork-snapshot semantics)", "os.cpu_count (simulated)"]}
 RULE = ("one run = one game with 1001..4096 strategies on the enumerated side (all shape families, unequal alphabets and question counts, 0/1 and fractional predicates, "
         "uniform / skewed / zero-containing question distributions) x one simulated pool configuration (1..61 workers, idle-worker choice, chunk durations, stalls); "
@@ -89,6 +89,20 @@ def run(cs, tier, run_index):
                 res.violate("C07.pool.config", first=repr(outcome[1])[:60], second=repr(out2[1])[:60], workers=[sim.max_workers, sim2.max_workers], **meta)
             res.log.add("pool2", sim2.max_workers, sim2.chunks, sim2.completion_order[:64], repr(out2[1])[:40])
 
+    # stub fidelity (thorough tier): the same game through the REAL multiprocessing.Pool must give the
+    # model value too.  Not the deciding step: its schedule is not controlled and cannot be replayed.
+    if tier == "thorough" and run_index % 500 == 7 and not fault_run:
+        try:
+            real = ("ok", M.NonlocalGame(prob0.copy(), pred0.copy()).classical_value())
+        except Exception as e:
+            real = ("exc", type(e).__name__, str(e)[:200])
+        res.probe("real_pool_crosscheck")
+        res.checks_sim += 1
+        res.log.add("real_pool", repr(real[1])[:40])
+        if real[0] != "ok" or not _num(real[1]) or abs(float(real[1]) - expected) > TOL:
+            res.violate("C07.pool.value", why="REAL multiprocessing.Pool result differs from the enumeration model", real_pool=True, got=repr(real[1])[:60], expected=expected, **meta)
+        elif outcome[0] == "ok" and _num(outcome[1]) and abs(float(real[1]) - float(outcome[1])) > TOL:
+            raise AssertionError("SimPool and the real pool disagree: %r vs %r" % (outcome[1], real[1]))
     res.nontrivial = nontrivial and not fault_run
     res.case_key = "%016x" % mix(adigest(prob0), adigest(pred0), sim.max_workers, tuple(sim.completion_order))
     res.interleaving = "%016x" % mix(sim.max_workers, tuple(sim.completion_order))
